@@ -1,6 +1,6 @@
 (* C13 - frame lemmas and invariants valid for every world, every action schedule:
    module descriptors never change, only polled parameters are read by the poller, the thread
-   ends only by a requested shutdown (or by the initialReads finding). *)
+   ends only by a requested shutdown. *)
 From Coq Require Import List Arith ZArith Bool Lia.
 Import ListNotations.
 Require Import FV.Gen.C13 FV.C13.Model.
@@ -431,10 +431,10 @@ Proof. intros s m. unfold get_mod, descs, d0. rewrite map_nth. reflexivity. Qed.
 
 Lemma init_module_ok : forall W s m,
   let p := init_module W s m in
-  ext s (ph_st p) /\ topoll (ph_st p) = topoll s /\ (is_crash p = true -> iread (nth m (descs s) d0) = true).
+  ext s (ph_st p) /\ topoll (ph_st p) = topoll s /\ is_crash p = false.
 Proof.
   intros W s m. unfold init_module. destruct (negb (alive s)).
-  { simpl. split; [apply ext_refl|]. split; [reflexivity|discriminate]. }
+  { simpl. split; [apply ext_refl|]. split; reflexivity. }
   rewrite md_get_mod. set (d := nth m (descs s) d0).
   set (s1 := if winit d then fst (body W (emit s (LWinit (now s) m))) else s).
   assert (E1 : ext s s1 /\ topoll s1 = topoll s).
@@ -449,24 +449,23 @@ Proof.
     assert (E3 : ext s s2).
     { eapply ext_trans; [exact E1|]. eapply ext_trans; [apply (ext_emit s1 (LIread (now s1) m)); exact I|exact E2]. }
     assert (T3 : topoll s2 = topoll s) by (rewrite T2; exact T1).
-    destruct o as [|c k]; [|destruct (is_comm c)]; simpl; auto.
-  - simpl. split; [exact E1|]. split; [exact T1|discriminate].
+    (* the containment of other exceptions is the generated fact initialreads_contained = true *)
+    destruct o as [|c k]; [|destruct (is_comm c); [|unfold initialreads_contained]]; simpl; auto.
+  - simpl. split; [exact E1|]. split; [exact T1|reflexivity].
 Qed.
 
 Lemma init_modules_ok : forall W l s,
   let p := init_modules W s l in
-  ext s (ph_st p) /\ topoll (ph_st p) = topoll s /\
-  (is_crash p = true -> exists m, iread (nth m (descs s) d0) = true).
+  ext s (ph_st p) /\ topoll (ph_st p) = topoll s /\ is_crash p = false.
 Proof.
   intros W l; induction l as [|m l IH]; intros s; simpl.
-  { split; [apply ext_refl|]. split; [reflexivity|discriminate]. }
+  { split; [apply ext_refl|]. split; reflexivity. }
   pose proof (init_module_ok W s m) as H. simpl in H.
   destruct (init_module W s m) as [s1|s1|s1]; simpl in H; destruct H as (E & T & C).
   - specialize (IH s1). simpl in IH. destruct IH as (E2 & T2 & C2).
-    split; [eapply ext_trans; eassumption|]. split; [congruence|].
-    intros Hc. destruct (C2 Hc) as [m' Hm']. exists m'. destruct E as (D & _). rewrite <- D. exact Hm'.
-  - simpl. split; [exact E|]. split; [exact T|discriminate].
-  - simpl. split; [exact E|]. split; [exact T|]. intros _. exists m. apply C. reflexivity.
+    split; [eapply ext_trans; eassumption|]. split; [congruence|exact C2].
+  - simpl. split; [exact E|]. split; [exact T|reflexivity].
+  - discriminate C.
 Qed.
 
 Lemma first_reads_ok : forall W l s, (forall m i, In (m, i) l -> pok (descs s) m i) ->
@@ -497,7 +496,7 @@ Lemma startup_ok : forall W s,
   descs s' = descs s /\ topoll s' = topoll s /\
   (nostop (acts s) -> nostop (acts s') /\ alive s' = alive s) /\
   (forall e, In e (log s') -> In e (log s) \/ okread (descs s) e) /\
-  (crashed s' = true -> crashed s = true \/ exists m, iread (nth m (descs s) d0) = true) /\
+  (crashed s' = true -> crashed s = true) /\
   (finished s' = true -> finished s = true \/ crashed s' = true \/
                          existsb enable (descs s) = false).
 Proof.
@@ -505,29 +504,28 @@ Proof.
   pose proof (init_modules_ok W (seq 0 (length (mods s))) s) as H1. simpl in H1.
   set (ph := match init_modules W s (seq 0 (length (mods s))) with
              | PGo s1 => first_reads W s1 (all_polled (mods s1)) | other => other end).
-  assert (H2 : ext s (ph_st ph) /\ topoll (ph_st ph) = topoll s /\
-               (is_crash ph = true -> exists m, iread (nth m (descs s) d0) = true)).
+  assert (H2 : ext s (ph_st ph) /\ topoll (ph_st ph) = topoll s /\ is_crash ph = false).
   { unfold ph. destruct (init_modules W s (seq 0 (length (mods s)))) as [s1|s1|s1]; simpl in H1; try exact H1.
     destruct H1 as (E & T & _).
     pose proof (first_reads_ok W (all_polled (mods s1)) s1 (all_polled_pok (mods s1))) as H3. simpl in H3.
     destruct H3 as (E3 & T3 & C3).
-    split; [eapply ext_trans; eassumption|]. split; [congruence|]. rewrite C3. discriminate. }
+    split; [eapply ext_trans; eassumption|]. split; [congruence|exact C3]. }
   clearbody ph. clear H1. destruct H2 as (E & T & C).
   assert (G : forall s1 s3, ext s s1 -> topoll s1 = topoll s -> ext s1 s3 -> topoll s3 = topoll s1 ->
      let s' := if existsb (fun x => enable (md x)) (mods s3) then s3 else set_finished s3 true in
      descs s' = descs s /\ topoll s' = topoll s /\
      (nostop (acts s) -> nostop (acts s') /\ alive s' = alive s) /\
      (forall e, In e (log s') -> In e (log s) \/ okread (descs s) e) /\
-     (crashed s' = true -> crashed s = true \/ exists m, iread (nth m (descs s) d0) = true) /\
+     (crashed s' = true -> crashed s = true) /\
      (finished s' = true -> finished s = true \/ crashed s' = true \/ existsb enable (descs s) = false)).
   { intros s1 s3 E1 T1 E3 T3. pose proof (ext_trans _ _ _ E1 E3) as (D & Cr & F & N & L).
     assert (Ex : existsb (fun x => enable (md x)) (mods s3) = existsb enable (descs s)).
     { rewrite <- D. unfold descs. clear. induction (mods s3) as [|x l IH]; simpl; [reflexivity|]. rewrite IH; reflexivity. }
     rewrite Ex. destruct (existsb enable (descs s)) eqn:Een; simpl.
     - split; [exact D|]. split; [congruence|]. split; [exact N|]. split; [exact L|].
-      split; [intros H; left; congruence|]. intros H. left; congruence.
+      split; [intros H; congruence|]. intros H. left; congruence.
     - split; [exact D|]. split; [congruence|]. split; [exact N|]. split; [exact L|].
-      split; [intros H; left; congruence|]. intros _. right; right; reflexivity. }
+      split; [intros H; congruence|]. intros _. right; right; reflexivity. }
   destruct ph as [s1|s1|s1]; simpl in E, T, C.
   - destruct (ext_call_started s1) as [E2 T2]. apply (G s1 _ E T E2 T2).
   - destruct (ext_call_started s1) as [E2 T2].
@@ -537,9 +535,7 @@ Proof.
     apply (G s1 _ E T).
     + eapply ext_trans; [exact E2|]. eapply ext_trans; [exact E3|exact E4].
     + congruence.
-  - destruct E as (D & Cr & F & N & L). simpl.
-    split; [exact D|]. split; [exact T|]. split; [exact N|]. split; [exact L|].
-    split; [intros _; right; apply C; reflexivity|]. intros _. right; left; reflexivity.
+  - discriminate C.
 Qed.
 
 (* ------------------------------------------------------------ whole runs *)
@@ -599,24 +595,19 @@ Proof.
     (split; [reflexivity|split; discriminate]).
 Qed.
 
-(* the thread ends only by a requested shutdown, unless initialReads raises *)
+(* the thread ends only by a requested shutdown *)
 Lemma survives : forall W n t0 ds a,
-  (forall d, In d (map fst ds) -> iread d = false) ->
   let s := run W n (init_state t0 ds a) in
   crashed s = false /\
   (finished s = true -> alive s = false \/ existsb enable (map fst ds) = false) /\
   (nostop a -> alive s = true).
 Proof.
-  intros W n t0 ds a Hi. unfold run. set (s0 := init_state t0 ds a).
+  intros W n t0 ds a. unfold run. set (s0 := init_state t0 ds a).
   destruct (startup_ok W s0) as (D0 & T0 & N0 & L0 & C0 & F0).
   assert (Ht : topoll_ok (startup W s0)).
   { unfold topoll_ok. rewrite T0. simpl. intros m' i' []. }
   assert (Cr : crashed (startup W s0) = false).
-  { destruct (crashed (startup W s0)) eqn:E; [|reflexivity]. destruct (C0 eq_refl) as [H|[m H]]; [discriminate H|].
-    exfalso. unfold s0 in H. rewrite descs_init in H.
-    destruct (nth_in_or_default m (map fst ds) d0) as [Hin|Hd].
-    - rewrite (Hi _ Hin) in H. discriminate.
-    - rewrite Hd in H. discriminate. }
+  { destruct (crashed (startup W s0)) eqn:E; [|reflexivity]. discriminate (C0 eq_refl). }
   simpl. split; [|split].
   - destruct (turns_ok W n _ Ht) as (_ & _ & C1 & _). simpl in C1. congruence.
   - (* finished only when not alive *)
